@@ -3,8 +3,8 @@
 Relational contract between two runs of the real code on two texts that differ only in the letter case of keyword
 occurrences (the lower-case text is the base line):
   parse-same-tree          bridgepoint.oal.parse gives structurally equal trees (node classes and all fields except the recorded
-                           source text / positions; the keyword-text fields cardinality / operator / boolean value compared
-                           case-insensitively)
+                           source text / positions; the keyword-text fields cardinality / operator / boolean value and the
+                           raw text of the keyword self kept in a name field compared case-insensitively)
   interpret-same-result    bridgepoint.interpret.run_function gives the same result and the same final population
   prebuild-same-instances  bridgepoint.prebuild.prebuild_action creates the same instances (all attribute values, identifiers
                            compared up to renaming) except the recorded source text ACT_SMT.Label
@@ -13,8 +13,11 @@ When re-spelling a single keyword occurrence reproduces a violation, the clause 
 
 Programs: C04's program spaces (bounded/_c04_gen.py), printed in the plain style and in the 'verbose' style that also uses
 the optional keywords assign / then / loop.  Spellings per keyword occurrence: lower, UPPER, Capitalised, mixed.
-Not varied: self, transform, bridge, send, generate and the event keywords (they need operation / bridge / state machine
-bodies, outside C04's program space - ctx.note).
+Item observable-operands: and / or / not over operands whose evaluation is observable (invocations of functions, bridges,
+class and instance operations of the C04 model that leave a trace in the population, expressions that raise) in assignments,
+conditions, where clauses, arguments.  Item invocation-bodies: C15's models (bounded/_c15_gen.py) with the keywords of all
+action bodies re-spelled; this also varies self, param, transform and bridge.
+Not varied: send, generate and the event keywords (they need state machine bodies, outside the C04 / C15 program spaces - ctx.note).
 """
 import random
 
@@ -24,6 +27,7 @@ import xtuml
 from bridgepoint import oal, prebuild
 
 from bounded import _c04_gen as G
+from bounded import _c15_gen as C
 from bounded import ref_oal as R
 from bounded import c04 as C04
 
@@ -32,8 +36,8 @@ STANDS = ['bridgepoint.oal.OALParser.t_ID', 'bridgepoint.oal.parse', 'bridgepoin
           'bridgepoint.interpret.ActionWalker.accept_SelectRelatedNode', 'bridgepoint.interpret.ActionWalker.accept_SelectRelatedWhereNode',
           'bridgepoint.prebuild.prebuild_action']
 NOTE = ('non-trivial cases = (program accepted by the reference evaluator, non-empty re-spelling) pairs; '
-        'keywords self / transform / bridge / send / generate / event keywords are not varied (outside the C04 program space); '
-        'programs are C04 programs the reference evaluator accepts on the population used')
+        'keywords send / generate / event keywords are not varied (outside the C04 / C15 program spaces); self, param, transform, bridge are '
+        'varied in item invocation-bodies only; programs are C04 programs (C15 cases in invocation-bodies) the reference evaluator accepts on the population used')
 SPELLINGS = ('upper', 'capital', 'mixed')
 
 
@@ -82,6 +86,8 @@ def tree_diff(x, y, path='root'):
             a, b = getattr(x, n, None), getattr(y, n, None)
             if isinstance(a, str) and isinstance(b, str) and (n in KEYWORD_FIELDS or (n == 'value' and isinstance(x, oal.BooleanNode))):
                 a, b = a.lower(), b.lower()
+            elif isinstance(a, str) and isinstance(b, str) and a.lower() == b.lower() == 'self':
+                a, b = a.lower(), b.lower()         # the raw text of the keyword self kept in a name field (delete / relate / unrelate)
             d = tree_diff(a, b, '%s/%s.%s' % (path, type(x).__name__, n))
             if d:
                 return d
@@ -105,8 +111,9 @@ def parse(text):
 
 
 # ------------------------------------------------------------------------------------------------- clause (b)
-def canon_run(result, snap, err):
+def canon_run(result, snap, err, sch=None):
     """Result + final population of a real run with generated identifiers renamed in order of appearance."""
+    sch = sch or G.schema()
     if err:
         return dict(error=err.split(':')[0])
     names = {}
@@ -117,7 +124,7 @@ def canon_run(result, snap, err):
         return v
     for cls in sorted(snap['instances']):          # names of the generated identifiers, in order of appearance
         for i, r in enumerate(snap['instances'][cls]):
-            for a in G.schema().classes[cls]:
+            for a in sch.classes[cls]:
                 if a.kind == 'id' and isinstance(r.get(a.name), int) and r[a.name] > 10 ** 9:
                     names.setdefault(r[a.name], '%s[%d].%s' % (cls, i, a.name))
     inst = dict((cls, [dict((k, val(v)) for k, v in r.items()) for r in snap['instances'][cls]]) for cls in sorted(snap['instances']))
@@ -251,24 +258,33 @@ def shrink(base, casing, clause):
     return cur, hit
 
 
-def in_domain_pops(tree, params, pops):
+def in_domain_pops(tree, params, pops, lenient=False):
+    """Populations on which the program is type-correct and error-free.  lenient (programs with invocations in operands and
+    where clauses): under at least one of the two readings of and/or (both operands evaluated / right operand skipped when
+    the left one settles the outcome), side effects of operands and where clauses allowed - the relation between the case
+    variants of one program does not depend on the reading."""
     out = []
     for pop in pops:
-        try:
-            G.run_reference(tree, pop, params=params)
-            out.append(pop)
-        except R.OutOfDomain:
-            pass
+        for logic in (('eager', 'short') if lenient else ('strict',)):
+            try:
+                G.run_reference(tree, pop, params=params, logic=logic, where_effects=lenient)
+                out.append(pop)
+                break
+            except R.OutOfDomain:
+                pass
     return out
 
 
 MAX_SHRINKS = 4
 
 
-def check_program(ctx, tree, style, casings, params=None, pops=('rich',), counts=None):
+ALL_CLAUSES = ('parse-same-tree', 'interpret-same-result', 'prebuild-same-instances')
+
+
+def check_program(ctx, tree, style, casings, params=None, pops=('rich',), counts=None, lenient=False, clauses=ALL_CLAUSES):
     """Compare every casing of one program with its lower-case text.  A failing casing is reduced (by halving) to as few
     re-spelled keyword occurrences as reproduce the clause; when a single keyword is left its name is appended to the clause."""
-    pops = in_domain_pops(tree, params, pops)
+    pops = in_domain_pops(tree, params, pops, lenient)
     if not pops:
         ctx.case(key=None, nontrivial=False)
         return
@@ -278,20 +294,32 @@ def check_program(ctx, tree, style, casings, params=None, pops=('rich',), counts
         if ctx.expired():
             return
         ctx.case(key=[base.text, sorted(casing.items())], nontrivial=bool(casing))
-        res, text = compare(base, casing)
+        res, text = compare(base, casing, clauses)
         for clause, observed, required in res:
             small, small_text, small_obs = casing, text, observed
-            if counts is not None and counts.get(clause, 0) < MAX_SHRINKS and len(casing) > 1 and not C04.soft_expired(ctx, 0.9):
+            for w in (counts or {}).get('culprits', {}).get(clause, []):      # a keyword that was singled out before: one more comparison
+                cand = dict((i, v) for i, v in casing.items() if kws[int(i)] == w)
+                if cand and len(cand) < len(casing):
+                    r2, t2 = compare(base, cand, (clause,))
+                    if r2:
+                        small, small_text, small_obs = cand, t2, r2[0][1]
+                        break
+            if len(set(kws[int(i)] for i in small)) == 1:
+                pass
+            elif counts is not None and counts.get(clause, 0) < MAX_SHRINKS and len(casing) > 1 and not C04.soft_expired(ctx, 0.9):
                 counts[clause] = counts.get(clause, 0) + 1
                 small, hit = shrink(base, casing, clause)
                 if hit:
                     small_obs, small_text = hit
             words = set(kws[int(i)] for i in small)
             if len(words) == 1:
-                clause = '%s:%s' % (clause, words.pop())
+                w = words.pop()
+                if counts is not None and w not in counts.setdefault('culprits', {}).setdefault(clause, []):
+                    counts['culprits'][clause].append(w)
+                clause = '%s:%s' % (clause, w)
             ctx.check(False, clause=clause,
                       input=dict(tree=tree, style=style, casing=dict((str(k), v) for k, v in small.items()), oal=small_text,
-                                 oal_lower=base.text, populations=list(pops), params=params or {},
+                                 oal_lower=base.text, populations=list(pops), params=params or {}, lenient=lenient, clauses=list(clauses),
                                  population_rows=dict((q, G.POPULATIONS[q]) for q in pops)),
                       observed=small_obs, required=required)
 
@@ -366,7 +394,7 @@ def _catalogue():
     ]
 
 
-@item('per-keyword', stands_in_for=STANDS, shards=7, weight=2,
+@item('per-keyword', stands_in_for=STANDS, shards=6, weight=2,
       bound='24 catalogue programs containing every keyword of the C04 language and param (select any many one from instances of related by '
             'where if elif else end while for each in break continue return create object instance delete relate unrelate to from across using '
             'not empty not_empty cardinality true false and or control stop selected param; verbose style adds assign then loop), each keyword '
@@ -405,7 +433,7 @@ def _two_casings(ctx, tree, style, n):
     return [casing_all(tree, style, SPELLINGS[n % 3], n), per_keyword_mix(tree, style, ctx.rng)]
 
 
-@item('single-statements', stands_in_for=STANDS, shards=3, weight=2,
+@item('single-statements', stands_in_for=STANDS, shards=2, weight=2,
       bound="C04's single-statement space (prelude + one statement + observation epilogue; 3007 programs) in fixed shuffled order, each program "
             'with all keywords in one of UPPER / Capitalised / mixed (rotating) and one random per-keyword mix, plain and verbose style '
             'alternating; population rich; as far as the time budget allows')
@@ -425,7 +453,7 @@ def single_statements(ctx):
     ctx.exhausted = True
 
 
-@item('control-flow', stands_in_for=STANDS, shards=3, weight=2,
+@item('control-flow', stands_in_for=STANDS, shards=1, weight=2,
       bound="C04's control-flow space (20475 programs of <= 3 statements) in fixed shuffled order, each with all keywords in one of UPPER / "
             'Capitalised / mixed (rotating) and one random per-keyword mix, plain and verbose style alternating; population rich; as far as '
             'the time budget allows')
@@ -447,7 +475,9 @@ def control_flow(ctx):
 
 @item('programs-sampled', stands_in_for=STANDS, shards=3, weight=2,
       bound="C04's random programs (up to 3 statements / depth 2 quick, 6 statements / depth 3 thorough), plain and verbose style, each with all "
-            'keywords UPPER / Capitalised / mixed and two random per-keyword mixes; populations rich, sparse, empty; sampled until 80% of the budget')
+            'keywords UPPER / Capitalised / mixed and two random per-keyword mixes; populations rich, sparse, empty; every other pair of programs has '
+            'invocations with observable effects (the helpers of item observable-operands) in a quarter of its integer / boolean expressions '
+            '(operands, conditions, where clauses); sampled until 80% of the budget')
 def programs_sampled(ctx):
     if ctx.shard == 0:
         ctx.note(NOTE)
@@ -456,23 +486,354 @@ def programs_sampled(ctx):
     n = 0
     while not C04.soft_expired(ctx):
         n += 1
-        g = G.Gen(G.RandomChooser(ctx.rng), prof)
+        calls = n % 4 >= 2          # every other pair of programs: invocations with observable effects anywhere an expression stands
+        g = G.Gen(G.RandomChooser(ctx.rng), dict(prof, helper_calls=0.25) if calls else prof)
         tree = g.program(ctx.rng.randint(1, 3 if ctx.quick else 6))
         style = {'verbose': 1} if n % 2 else {}
         casings = all_casings(tree, style, n) + [per_keyword_mix(tree, style, ctx.rng), per_keyword_mix(tree, style, ctx.rng)]
-        check_program(ctx, tree, style, casings, pops=tuple(G.POP_NAMES), counts=counts)
+        check_program(ctx, tree, style, casings, pops=tuple(G.POP_NAMES), counts=counts, lenient=calls)
+    ctx.exhausted = False
+
+
+# ------------------------------------------------------------------------------------------------- observable operands
+# Programs in which the evaluation of an operand is observable: the operand is an invocation that leaves a trace in the
+# population (bounded/_c04_gen.HELPERS: function fb / bridge EX::bb / class operation A::cb create a B tagged with n and
+# return c; instance operation ib adds n to self.i and returns c; fi returns its integer) or an expression that raises
+# (attribute of the empty handle a0).  Whatever an interpreter does with such operands (evaluate both operands of and/or,
+# or skip the right one when the left one settles the outcome), it has to do the same in every spelling of the keywords.
+T_, F_ = ['bool', True], ['bool', False]
+OPERAND_PRELUDE = [['selfrom', 'any', 'a1', 'A', None], ['selfrom', 'any', 'a0', 'A', ['bin', '>', ['attr', ['selected'], 'i'], ['int', 5]]],
+                   ['selfrom', 'many', 'as1', 'A', None], ['assign', ['var', 'p'], T_], ['assign', ['var', 'q'], F_],
+                   ['assign', ['var', 'x'], ['int', 1]], ['assign', ['var', 'm'], ['int', 0]]]
+OPERAND_KINDS = ('function', 'bridge', 'cop', 'iop')
+OPERAND_CONTEXTS = ('assign', 'return', 'if', 'elif', 'while', 'for-body', 'where-from', 'where-related', 'argument', 'attribute', 'not')
+
+
+def hcall(kind, c, n):
+    args = [['c', ['bool', c]], ['n', ['int', n]]]
+    if kind == 'function':
+        return ['fcall', 'fb', args]
+    if kind == 'bridge':
+        return ['bcall', 'EX', 'bb', args[::-1]]
+    if kind == 'cop':
+        return ['ccall', 'A', 'cb', args]
+    return ['icall', ['var', 'a1'], 'ib', args]
+
+
+def left_operands():
+    for t in (False, True):
+        yield 'literal', t, ['bool', t]
+        yield 'variable', t, ['var', 'p' if t else 'q']
+        yield 'comparison', t, ['bin', '<' if t else '>', ['var', 'x'], ['int', 2]]
+        yield 'invocation', t, hcall('function', t, 1)
+
+
+def right_operands():
+    for kind in OPERAND_KINDS:
+        for c in (True, False):
+            yield '%s-invocation' % kind, hcall(kind, c, 2)
+    for c in (True, False):
+        yield 'negated-invocation', ['un', 'not', hcall('function', c, 2)]
+    yield 'compared-invocation', ['bin', '==', ['fcall', 'fi', [['n', ['int', 2]]]], ['int', 2]]
+    yield 'compared-invocation', ['bin', '!=', ['fcall', 'fi', [['n', ['int', 2]]]], ['int', 2]]
+    yield 'raising', ['bin', '>', ['attr', ['var', 'a0'], 'i'], ['int', 0]]
+    yield 'nested', ['bin', 'and', hcall('function', True, 2), hcall('bridge', False, 3)]
+    yield 'nested', ['bin', 'or', hcall('cop', False, 2), hcall('function', True, 3)]
+
+
+def operand_expressions(core=False):
+    """Boolean expressions `L and/or R` whose operands are observable, then chains of three operands in both groupings."""
+    out = []
+    for lname, t, left in left_operands():
+        if core and lname != 'literal':
+            continue
+        for op in ('and', 'or'):
+            for rname, right in right_operands():
+                if core and rname not in ('function-invocation', 'raising'):
+                    continue
+                out.append(['bin', op, left, right])
+    if core:
+        return out
+    for t in (False, True):
+        for op1 in ('and', 'or'):
+            for op2 in ('and', 'or'):
+                for c1 in (False, True):
+                    for c2 in (False, True):
+                        out.append(['bin', op2, ['bin', op1, ['bool', t], hcall('function', c1, 2)], hcall('cop', c2, 3)])
+                        out.append(['bin', op1, ['bool', t], ['bin', op2, hcall('bridge', c1, 2), hcall('function', c2, 3)]])
+    return out
+
+
+def _where_form(e):
+    """Inside a where clause the left operand also reads the candidate: (selected.<boolean> and/or R)."""
+    return e
+
+
+def operand_program(e, context):
+    """A program that evaluates the boolean expression e in the given context and returns what it computed; the traces of
+    the invocations stay in the final population."""
+    M, C, RV = ['var', 'm'], ['var', 'c'], ['var', 'r']
+    inc = ['assign', M, ['bin', '+', M, ['int', 1]]]
+    if context == 'assign':
+        mid = [['assign', RV, e], ['return', RV]]
+    elif context == 'return':
+        mid = [['return', e]]
+    elif context == 'if':
+        mid = [['if', e, [['assign', M, ['int', 1]]], [], [['assign', M, ['int', 2]]]], ['return', M]]
+    elif context == 'elif':
+        mid = [['if', F_, [['assign', M, ['int', 9]]], [[e, [['assign', M, ['int', 1]]]], [T_, [['assign', M, ['int', 2]]]]], [['assign', M, ['int', 3]]]],
+               ['return', M]]
+    elif context == 'while':
+        mid = [['assign', C, ['int', 0]],
+               ['while', e, [['assign', C, ['bin', '+', C, ['int', 1]]], ['if', ['bin', '>=', C, ['int', 2]], [['break']], [], None]]], ['return', C]]
+    elif context == 'for-body':
+        mid = [['for', 'e1', 'as1', [['if', e, [inc], [], None]]], ['return', M]]
+    elif context == 'where-from':
+        w = ['bin', e[1], ['bin', '==', ['attr', ['selected'], 'b'], e[2]], e[3]] if e[2][0] != 'bin' else e
+        mid = [['selfrom', 'many', 'as2', 'A', w], ['return', ['un', 'cardinality', ['var', 'as2']]]]
+    elif context == 'where-related':
+        w = ['bin', e[1], ['bin', 'or', ['bin', '>', ['attr', ['selected'], 'n'], ['int', 10]], e[2]], e[3]]
+        mid = [['selrel', 'any', 'b1', ['var', 'a1'], [['B', 'R1', None]], w], ['return', ['un', 'not_empty', ['var', 'b1']]]]
+    elif context == 'argument':
+        mid = [['assign', RV, ['fcall', 'fb', [['n', ['int', 7]], ['c', e]]]], ['call', ['fcall', 'fv', [['n', ['int', 8]]]]], ['return', RV]]
+    elif context == 'attribute':
+        mid = [['assign', ['attr', ['var', 'a1'], 'b'], e], ['return', ['attr', ['var', 'a1'], 'b']]]
+    elif context == 'not':
+        mid = [['assign', RV, ['un', 'not', e]], ['return', ['bin', '==', RV, ['var', 'q']]]]
+    else:
+        raise KeyError(context)
+    return OPERAND_PRELUDE + mid
+
+
+def operand_programs(quick):
+    """quick: the core expressions (literal left operand x and/or x {function invocation true / false, raising}) in every context,
+    then every expression in one context (rotating); thorough: every expression in every context."""
+    out, seen = [], set()
+
+    def add(e, context):
+        tree = operand_program(e, context)
+        key = R.render(tree)
+        if key not in seen:
+            seen.add(key)
+            out.append(tree)
+    for context in OPERAND_CONTEXTS:
+        for e in operand_expressions(core=True):
+            add(e, context)
+    every = operand_expressions()
+    for n, e in enumerate(every):
+        for k, context in enumerate(OPERAND_CONTEXTS):
+            if not quick or k == n % len(OPERAND_CONTEXTS):
+                add(e, context)
+    return out
+
+
+def operator_casing(tree, style, how, salt=0):
+    """Only the operator keywords and / or / not re-spelled."""
+    kws = [str(p) for p in R.pieces(tree, style) if isinstance(p, R.K)]
+    return dict((i, spell(w, how, salt + i)) for i, w in enumerate(kws) if w in ('and', 'or', 'not'))
+
+
+@item('observable-operands', stands_in_for=['bridgepoint.interpret.run_function', 'bridgepoint.interpret.ActionWalker.accept_BinaryOperationNode',
+                                            'bridgepoint.interpret.ActionWalker.accept_UnaryOperationNode', 'bridgepoint.oal.parse'],
+      shards=3, weight=2,
+      bound='boolean expressions L and/or R whose operands are observable: L = literal / variable / comparison / invocation (true and false), '
+            'R = invocation of a function / bridge / class operation / instance operation that leaves a trace in the population and returns true or '
+            'false, negated and compared invocations, an expression that raises (attribute of an empty handle), nested and/or; chains of 3 operands in '
+            'both groupings (304 expressions); contexts: assignment, return, if / elif / while condition, for-each body, where clause of select from '
+            'instances and of select related by (per candidate instance), argument of an invocation, attribute write, operand of not (11). '
+            'quick: 12 core expressions x 11 contexts + every expression in one context (about 420 programs); thorough: every expression in every '
+            'context (about 3300).  Casings: all keywords UPPER / Capitalised / mixed (rotating; all three in thorough), only and/or/not re-spelled, '
+            'one random per-keyword mix (quick: for every 2nd program); clauses parse-same-tree and interpret-same-result, prebuild-same-instances for every 4th program; '
+            'plain and verbose style alternating; population rich')
+def observable_operands(ctx):
+    if ctx.shard == 0:
+        ctx.note(NOTE)
+        ctx.note('observable-operands: a program is inside the property when the reference evaluator accepts it under at least one reading of '
+                 'and/or (both operands evaluated, or the right operand skipped when the left one settles the outcome); side effects in operands '
+                 'and where clauses are allowed here because only the case variants of one program are compared with each other')
+    counts = {}
+    for n, tree in enumerate(operand_programs(ctx.quick)):
+        if n % ctx.nshards != ctx.shard:
+            continue
+        if ctx.expired():
+            ctx.exhausted = False
+            return
+        k = n // ctx.nshards
+        style = {'verbose': 1} if k % 2 else {}
+        hows = [SPELLINGS[k % 3]] if ctx.quick else list(SPELLINGS)
+        casings = [casing_all(tree, style, how, k) for how in hows]
+        casings.append(operator_casing(tree, style, SPELLINGS[(k + 1) % 3], k))
+        if not ctx.quick or k % 2 == 0:
+            casings.append(per_keyword_mix(tree, style, ctx.rng))
+        clauses = ALL_CLAUSES if k % 4 == 0 else ALL_CLAUSES[:2]
+        check_program(ctx, tree, style, [c for c in casings if c], pops=('rich',), counts=counts, lenient=True, clauses=clauses)
+    ctx.exhausted = True
+
+
+# ------------------------------------------------------------------------------------------------- bodies with invocations
+# Whole models (bounded/_c15_gen.py cases: functions, bridges, class / instance operations, derived attributes calling each
+# other) whose action bodies are all re-spelled: besides C04's keywords this varies self, param and (verbose style) transform /
+# bridge, and the keywords stand in bodies whose invocations have effects.
+def interpret_case(case, style, casing):
+    sch = C.make_schema(case)
+    result, snap, err = C.run_real(case, style, casing)
+    if err and err.startswith('loading the model'):
+        err = 'loading: ' + err.split(': ', 2)[1]
+    return canon_run(result, snap, err, sch)
+
+
+def case_in_domain(case):
+    for logic in ('eager', 'short'):
+        try:
+            C.run_reference(case, logic=logic, where_effects=True)
+            return True
+        except R.OutOfDomain:
+            pass
+    return False
+
+
+def compare_case(case, style, base_texts, base_trees, base_run, casing):
+    """Violated clauses of one re-spelling of all bodies of a case."""
+    casing = dict((int(k), v) for k, v in casing.items())
+    texts = C.bodies(case, style, casing)
+    out = []
+    for key in sorted(texts):
+        (ast0, err0), (ast, err) = base_trees[key], parse(texts[key])
+        d = None
+        if err0 is None and err is not None:
+            d = err
+        elif err0 is not None and err is None:
+            d = 'the variant parses, the lower-case text does not: %s' % err0
+        elif err0 is None:
+            d = tree_diff(ast0, ast)
+        if d:
+            out.append(('parse-same-tree', '%s: %s' % (key, d), 'the tree of the lower-case text'))
+            break
+    b = interpret_case(case, style, casing)
+    if b != base_run:
+        diff = dict((k, b.get(k)) for k in set(base_run) | set(b) if base_run.get(k) != b.get(k))
+        out.append(('interpret-same-result', dict(differs=diff), dict((k, base_run.get(k)) for k in diff)))
+    return out, texts
+
+
+def check_case(ctx, case, style, casings, counts=None):
+    if not case_in_domain(case):
+        ctx.case(key=None, nontrivial=False)
+        return
+    base_texts = C.bodies(case, style)
+    base_trees = dict((k, parse(t)) for k, t in base_texts.items())
+    base_run = interpret_case(case, style, None)
+    kws = C.keywords(case, style)
+    for casing in casings:
+        if ctx.expired():
+            return
+        ctx.case(key=[base_texts, sorted(casing.items())], nontrivial=bool(casing))
+        res, texts = compare_case(case, style, base_texts, base_trees, base_run, casing)
+        for clause, observed, required in res:
+            small = dict(casing)
+            for w in (counts or {}).get('culprits', {}).get(clause, []):      # a keyword that was singled out before: one more comparison
+                cand = dict((i, v) for i, v in casing.items() if kws[int(i)] == w)
+                if cand and len(cand) < len(casing):
+                    r2, t2 = compare_case(case, style, base_texts, base_trees, base_run, cand)
+                    hit = [x for x in r2 if x[0] == clause]
+                    if hit:
+                        small, observed, texts = cand, hit[0][1], t2
+                        break
+            if len(set(kws[int(i)] for i in small)) == 1:
+                pass
+            elif counts is not None and counts.get(clause, 0) < MAX_SHRINKS and not C04.soft_expired(ctx, 0.9):
+                counts[clause] = counts.get(clause, 0) + 1
+                while len(small) > 1:           # halve the set of re-spelled occurrences while the clause stays violated
+                    keys = sorted(small)
+                    for part in (keys[:len(keys) // 2], keys[len(keys) // 2:]):
+                        cand = dict((k, small[k]) for k in part)
+                        r2, t2 = compare_case(case, style, base_texts, base_trees, base_run, cand)
+                        hit = [x for x in r2 if x[0] == clause]
+                        if hit:
+                            small, observed, texts = cand, hit[0][1], t2
+                            break
+                    else:
+                        break
+            words = set(kws[int(i)] for i in small)
+            name = clause
+            if len(words) == 1:
+                w = words.pop()
+                if counts is not None and w not in counts.setdefault('culprits', {}).setdefault(clause, []):
+                    counts['culprits'][clause].append(w)
+                name = '%s:%s' % (clause, w)
+            ctx.check(False, clause=name,
+                      input=dict(case=case, style=style, casing=dict((str(k), v) for k, v in small.items()), oal=texts, oal_lower=base_texts),
+                      observed=observed, required=required)
+
+
+def invocation_cases():
+    """C15's deterministic cases (templates, recursion, derived attributes, self, locals named like parameters)."""
+    from bounded import c15
+    cases = list(c15.template_cases()) + list(c15.recursion_cases()) + list(c15.derived_cases()) + list(c15.self_cases()) + list(c15.shadow_cases())
+    random.Random(8).shuffle(cases)
+    return cases
+
+
+@item('invocation-bodies', stands_in_for=['bridgepoint.interpret.run_function', 'bridgepoint.interpret.run_operation',
+                                          'bridgepoint.interpret.run_derived_attribute', 'bridgepoint.oal.parse'],
+      shards=1, weight=1,
+      bound="C15's models (functions, bridges, class / instance operations, derived attributes invoking each other: templates, recursion, "
+            'derived attributes, self as handle, locals named like parameters; about 500 cases in fixed shuffled order, then random call graphs), '
+            'the keywords of *all* action bodies re-spelled (adds self, param and in the verbose style transform / bridge to the varied keywords): '
+            'all keywords in one of UPPER / Capitalised / mixed (rotating) and one random per-keyword mix; clauses parse-same-tree and '
+            'interpret-same-result (entry invoked from Python; result + final population); as far as the time budget allows')
+def invocation_bodies(ctx):
+    if ctx.shard == 0:
+        ctx.note(NOTE)
+    counts = {}
+    n = 0
+
+    def one(case):
+        style = {'verbose': 1} if n % 2 else {}
+        kws = C.keywords(case, style)
+        upper = dict((i, spell(w, SPELLINGS[n % 3], n + i)) for i, w in enumerate(kws))
+        mix = {}
+        for i, w in enumerate(kws):
+            how = ctx.rng.choice(('lower',) + SPELLINGS)
+            if how != 'lower':
+                mix[i] = spell(w, how, ctx.rng.randrange(1000))
+        check_case(ctx, case, style, [c for c in (upper, mix) if c], counts)
+    for case in invocation_cases():
+        n += 1
+        if n % ctx.nshards != ctx.shard:
+            continue
+        if C04.soft_expired(ctx, 0.95):
+            ctx.exhausted = False
+            return
+        one(case)
+    while not C04.soft_expired(ctx):
+        n += 1
+        one(C.gen_case(ctx.rng))
     ctx.exhausted = False
 
 
 # ------------------------------------------------------------------------------------------------- replay
 def replay(item_name, input):
+    if 'case' in input:             # item invocation-bodies: a whole model
+        case, style = input['case'], input.get('style') or {}
+        if not case_in_domain(case):
+            return [dict(clause='replay', observed='the reference evaluator rejects the recorded case', required='a case inside the property')]
+        base_texts = C.bodies(case, style)
+        res, texts = compare_case(case, style, base_texts, dict((k, parse(t)) for k, t in base_texts.items()), interpret_case(case, style, None),
+                                  input['casing'])
+        if 'oal' in input and texts != input['oal']:
+            return [dict(clause='replay', observed='printed text differs from the recorded text', required=input['oal'])]
+        kws = C.keywords(case, style)
+        words = set(kws[int(i)] for i in input['casing'])
+        suffix = ':%s' % words.pop() if len(words) == 1 else ''
+        return [dict(clause=c + suffix, observed=G.plain(o), required=G.plain(r)) for c, o, r in res]
     tree, style = input['tree'], input.get('style') or {}
     params = input.get('params') or None
-    pops = in_domain_pops(tree, params, input.get('populations') or ['rich'])
+    pops = in_domain_pops(tree, params, input.get('populations') or ['rich'], bool(input.get('lenient')))
     if not pops:
         return [dict(clause='replay', observed='the reference evaluator rejects the recorded program', required='a program inside the property')]
     base = Base(tree, style, pops, params)
-    res, text = compare(base, input['casing'])
+    res, text = compare(base, input['casing'], tuple(input.get('clauses') or ALL_CLAUSES))
     if 'oal' in input and text != input['oal']:
         return [dict(clause='replay', observed='printed text differs from the recorded text', required=input['oal'])]
     kws = [str(p) for p in R.pieces(tree, style) if isinstance(p, R.K)]
